@@ -101,10 +101,21 @@ def property_theorems(prop):
     # strip block comments
     src_nc = re.sub(r"/-.*?-/", "", src, flags=re.S)
     src_nc = re.sub(r"--.*", "", src_nc)
-    ns = re.findall(r"^namespace\s+(\S+)", src_nc, flags=re.M)
-    names = THEOREM_RE.findall(src_nc)
-    prefix = (ns[0] + ".") if ns else ""
-    return [prefix + n for n in names], src
+    # follow `namespace X` / `end X` so that a file with several namespaces is audited correctly
+    stack, out = [], []
+    for line in src_nc.split("\n"):
+        m = re.match(r"^namespace\s+(\S+)", line)
+        if m:
+            stack.append(m.group(1))
+            continue
+        m = re.match(r"^end\s+(\S+)", line)
+        if m and stack and stack[-1] == m.group(1):
+            stack.pop()
+            continue
+        m = THEOREM_RE.match(line)
+        if m:
+            out.append(".".join(stack + [m.group(1)]))
+    return out, src
 
 
 def forbidden_tokens(prop):
